@@ -123,7 +123,8 @@ class LatticeInput(CellModifierInput):
         ret = (
             f"Lattice: in_cell: {self._in_cell_block}"
             f" set_in_block: {self.set_in_cell_block}, "
-            f"Lattice_values : {self.lattice}"
+            # the data-block input hands its lattices to the cells and then forgets them
+            f"Lattice_values : {self.lattice if hasattr(self, '_lattice') else None}"
         )
         return ret
 
